@@ -193,7 +193,7 @@ Definition cond_with (n : node) (tok : token) (w a : attr) (cmd : str) : Prop :=
   a_name w = m_attr_prefix mgr ++ d_with /\ a_name a = m_attr_prefix mgr ++ cmd /\
   is_cond_name cmd = true /\ a_value a <> None /\
   (dirs tok = [w; a] \/ dirs tok = [a; w]) /\
-  str_eqb (map to_lower (t_name tok)) (m_tag_prefix mgr ++ d_block) = false.
+  str_eqb (block_key to_lower (t_name tok)) (m_tag_prefix mgr ++ d_block) = false.
 
 Definition finish (n : node) (top : bool) (x : LR) : R :=
   match x with
@@ -216,7 +216,7 @@ Proof. reflexivity. Qed.
 (* from the condition attribute on: exactly as for an element without :with *)
 Lemma cond_tail : forall ctx n tok a cmd sc tb rest top t st,
   In a (t_attrs tok) -> a_name a = m_attr_prefix mgr ++ cmd -> is_cond_name cmd = true -> a_value a <> None ->
-  str_eqb (map to_lower (t_name tok)) (m_tag_prefix mgr ++ d_block) = false ->
+  str_eqb (block_key to_lower (t_name tok)) (m_tag_prefix mgr ++ d_block) = false ->
   finish n top (rattrs 0 ctx n (t_attrs tok) (a :: rest) (set_tagbuf (ilstate 0 tok sc) tb) t st)
   = match cowner 0 ctx n a cmd (ilstate 0 tok sc) t st with
     | (inl ls, t', st') => wr top (l_direct ls) t' st'
@@ -327,7 +327,7 @@ Definition item_okw (i : itemw) : Prop := match i with WGap g => is_gap g | WEle
 Lemma cw_facts : forall e, cw_ok e ->
   In (cw_attr e) (t_attrs (cw_tok e)) /\ a_name (cw_attr e) = m_attr_prefix mgr ++ cw_cmd e /\
   is_cond_name (cw_cmd e) = true /\
-  str_eqb (map to_lower (t_name (cw_tok e))) (m_tag_prefix mgr ++ d_block) = false /\
+  str_eqb (block_key to_lower (t_name (cw_tok e))) (m_tag_prefix mgr ++ d_block) = false /\
   is_tag_node (cw_node e) = true.
 Proof.
   intros e Hok. unfold cw_ok in Hok. destruct (cw_with e) as [w|].
